@@ -65,6 +65,8 @@ func main() {
 			genTypes(os.Args[5])
 		case "tproc":
 			genTproc(seed, n, os.Args[5])
+		case "sloop":
+			genSloop(os.Args[5])
 		default:
 			gen(os.Args[2], seed, n, os.Args[5])
 		}
@@ -82,6 +84,8 @@ func main() {
 			oracleDloop(os.Args[3], os.Args[4])
 		case "types":
 			oracleTypes(os.Args[3], os.Args[4])
+		case "sloop":
+			oracleSloop(os.Args[3], os.Args[4])
 		default:
 			oracle(os.Args[2], os.Args[3], os.Args[4])
 		}
@@ -247,6 +251,8 @@ func execOps(stream, in, outp string) {
 			out.Line(applyRecv(f))
 		case "types":
 			out.Line("ok")
+		case "sloop":
+			out.Line(applySloop(f))
 		default:
 			out.Line(s.apply(f))
 		}
